@@ -129,7 +129,35 @@ def textbook(vals, uin, uout, meta):
     return t / float(UNITS[uout][1])
 
 
+def magnitude_stream(ctx):
+    """Logarithmic units are equivalent to Jy: equal physical inputs expressed in AB magnitudes (or dB / dex of Jy) must
+    give the same total, and the total is additive over a split (oracle only: the unit algebra of the model is linear)."""
+    rng = ctx.rng('c13-mag')
+    for it in range(40 if ctx.quick else 400):
+        vals = np.array([rng.uniform(1e-3, 50.0) for _ in range(rng.randint(1, 6))])
+        q = vals * u.Jy
+        want = float(vals.sum())
+        fails = []
+        for name, unit in (('ABmag', u.ABmag), ('dB(Jy)', u.dB(u.Jy)), ('dex(Jy)', u.dex(u.Jy))):
+            try:
+                qm = q.to(unit)
+                got = float(compute_flux(qm, u.Jy).value)
+                k = rng.randint(0, len(vals))
+                parts = float(compute_flux(qm[:k], u.Jy).value if k else 0.0) + float(compute_flux(qm[k:], u.Jy).value if k < len(vals) else 0.0)
+                if abs(got - want) > 1e-9 * want:
+                    fails.append('%s Jy expressed in %s sum to %r Jy, in Jy to %r' % (vals.tolist(), name, got, want))
+                elif abs(parts - got) > 1e-9 * want:
+                    fails.append('in %s the total %r is not the sum %r of the totals of a split at %d' % (name, got, parts, k))
+            except Exception as e:
+                fails.append('compute_flux on %s raised %r' % (name, e))
+        ctx.count('magnitude_cases')
+        ctx.case_done(None, ('mag', it))
+        if fails:
+            ctx.oracle_failure({'stream': 'magnitudes', 'values_Jy': vals.tolist()}, fails[:3])
+
+
 def explore(ctx):
+    magnitude_stream(ctx)
     rng = ctx.rng('c13')
     terms, expect = [], []
     n = 500 if ctx.quick else 5000
